@@ -1,5 +1,7 @@
 """C16 -- calibration and parameter handles stay valid, distinct and
 correctly indexed."""
+import concurrent.futures
+
 import vlib
 from families import calstore
 
@@ -13,8 +15,11 @@ def body(c):
         c.cov["evaluations"] = 1
         c.cov["distinct_nontrivial"] = 1
         return
-    calstore.mc(c, c.tier)
-    issues, stats = calstore.run(c, exe, c.tier, c.seed)
+    # the design-level TLC runs and the implementation runs are independent
+    with concurrent.futures.ThreadPoolExecutor(1) as ex:
+        fmc = ex.submit(calstore.mc, c, c.tier)
+        issues, stats = calstore.run(c, exe, c.tier, c.seed)
+        fmc.result()
     for it in issues:
         c.issue(it)
     c.add_part("calstore_traces", stats)
@@ -40,7 +45,7 @@ def body(c):
         "vnacal_parameter(3), vnacal_new(3)", "PropDoc.tla",
         "driver projection through public getters",
         "driver's ideal-instrument measurements (M = S of the standard) and "
-        "its boolean 'solved unknown within 1e-6 of the standard's true value'",
+        "its boolean 'solved unknown within 1e-4 (100 x default p_tolerance) of the standard's true value'",
         "clang ASan/UBSan, vt_alloc live-block accounting"]
     c.assumptions += [
         "handle returned by make_*_parameter: any handle not in the table "
